@@ -318,6 +318,9 @@ func check05(c *Case, o *Obs, rec Rec) (vs []viol, inconclusive string) {
 		preCls = ",after-SetTrailer"
 	}
 	add := func(obs, cls, what string) {
+		if c.Kind == "C05ctx" {
+			cls = "ctx-done"
+		}
 		if c.Opt != "" {
 			// mux-option cases: the class is how the status compares with the limit
 			switch n := len(sc.Msg); {
@@ -503,10 +506,10 @@ func check05(c *Case, o *Obs, rec Rec) (vs []viol, inconclusive string) {
 		if o.Replies != wantReplies(c) && rec.Sent == wantReplies(c) && o.WebErr == "" {
 			add("replies", gen, fmt.Sprintf("%d reply frames, handler sent %d", o.Replies, rec.Sent))
 		}
-		if c.Kind == "C05ctx" {
-			if o.Code != uint64(sc.Code) && o.Code != 4 {
-				add("grpc-status", "ctx-done", fmt.Sprintf("grpc-status %s after the deadline, handler returned %d", o.CodeText, sc.Code))
-			}
+		if c.Kind == "C05ctx" && o.Code != uint64(sc.Code) {
+			// the deadline of the call has passed, the handler then returned its
+			// own status: that status (not the context's) is the result
+			add("grpc-status", "ctx-done", fmt.Sprintf("grpc-status %s (%+q) after the deadline, handler returned %d", o.CodeText, clip(o.Msg, 80), sc.Code))
 			return
 		}
 		if o.Code != uint64(sc.Code) {
@@ -1081,15 +1084,22 @@ func RunC05(r *mon.Run) {
 	}
 
 	// deadline already expired when the handler returns its status
-	for _, p := range []string{"grpc-raw", "grpcweb", "grpcweb-text"} {
+	// (raw clients: their own deadline is generous, only the grpc-timeout
+	// header is small; the handler blocks until ctx.Done() and then returns)
+	for _, p := range []string{"grpc-raw", "grpc-h2c", "grpcweb", "grpcweb-text", "grpcweb-sock", "grpcweb-text-sock"} {
 		for _, meth := range []struct {
 			m string
 			k int
-		}{{"Echo", 0}, {"SS", 0}, {"SS", 1}} {
-			for _, code := range []uint32{4, 5, 13} {
-				c := &Case{Kind: "C05ctx", Proto: p, Codec: "proto", Method: meth.m, Class: "ctx-done",
-					Script: Script{Code: code, Msg: "late status", Replies: meth.k, WaitCtx: true}}
-				g.exec(c, "ctx-done")
+		}{{"Echo", 0}, {"SS", 0}, {"SS", 1}, {"SS", 3}, {"Bidi", 1}} {
+			if meth.m == "Bidi" && strings.HasPrefix(p, "grpcweb") {
+				continue
+			}
+			for _, code := range []uint32{1, 4, 5, 13, 17} {
+				for _, det := range []bool{false, true} {
+					c := &Case{Kind: "C05ctx", Proto: p, Codec: "proto", Method: meth.m, Class: "ctx-done",
+						Script: Script{Code: code, Msg: "late status 50% ✓", Details: det, Replies: meth.k, WaitCtx: true}}
+					g.exec(c, "ctx-done")
+				}
 			}
 		}
 	}
